@@ -15,7 +15,9 @@ PROP_FILE = "props/C08.v"
 RULE = ("queries of the C01/C02/C13 generators (standard and extended, simple and compound; strings and scalars reached "
         "by wildcard, slice, descendant and filter selectors) x random documents: findall / finditer / findall_async / "
         "finditer_async at compiled and package level; the same on documents wrapped in custom Mapping/Sequence classes "
-        "with an async item getter; 2..6 evaluations awaited concurrently with asyncio.gather on one loop. "
+        "with an async item getter; 2..6 evaluations awaited concurrently with asyncio.gather on one loop; ONE compiled "
+        "query evaluated on three different (document, filter context) pairs whose async getters suspend, awaited together "
+        "and as finditer_async iterators advanced in turn, each compared with the sync result for that pair. "
         "non-trivial = at least one segment; distinct = distinct (query text, document)")
 TRUSTED = ["the asyncio event loop and scheduler are not modelled (partial on schedules): the model shows evaluation is a "
            "function of its arguments; the gathered runs test that no state is shared"]
@@ -94,7 +96,11 @@ def gen(rng, tier):
         elif isinstance(doc, list) and rng.random() < 0.5:
             doc = doc + ["xyz"]
         q = Q.gen_ext_query(rng, doc)
-        yield {"query": q, "doc": doc, "ctx": Q.CTX, "seed": rng.randrange(1 << 30), "std": rng.random() < 0.5,
+        if rng.random() < 0.3:
+            from . import c09 as PURE
+            q = {"first": {"fake": False, "segs": [["list", ["filter", PURE.gen_cacheable_logical(rng, rng.randint(1, 2))]]]}, "rest": []}
+        other = gen_container(rng, 3, 3, NAMES)
+        yield {"query": q, "doc": doc, "other": other, "ctx": Q.CTX, "seed": rng.randrange(1 << 30), "std": rng.random() < 0.5,
                "implicit_root": False, "gather": rng.choice([0, 0, 2, 3, 6]), "custom": rng.random() < 0.3}
     for v in ["xyz", 5, None, True, 1.5]:
         for segs in ([["sel", "wild"]], [["list", ["slice", None, None, None]]], ["desc", ["sel", "wild"]],
@@ -132,6 +138,36 @@ async def _run_async(c, doc, ctx, gather):
     return out
 
 
+async def _run_concurrent(c, docs, ctxs):
+    """evaluations of ONE compiled query on DIFFERENT documents / contexts overlapping on one loop (the containers'
+    async getters really suspend): awaited together, and as result iterators advanced in turn"""
+    async def one(d, cx):
+        try:
+            return [SX.canon(unwrap(v)) for v in await c.findall_async(wrap(deep(d)), filter_context=deep(cx))]
+        except Exception as e:  # noqa: BLE001
+            return ["err", exc_name(e)]
+    gathered = await asyncio.gather(*[one(d, cx) for d, cx in zip(docs, ctxs)])
+    turns = []
+    try:
+        its = [await c.finditer_async(wrap(deep(d)), filter_context=deep(cx)) for d, cx in zip(docs, ctxs)]
+        got = [[] for _ in its]
+        live = list(range(len(its)))
+        while live:
+            for i in list(live):
+                try:
+                    m = await its[i].__anext__()
+                    got[i].append([[p if isinstance(p, int) else ["k", p] for p in m.parts], m.path, SX.canon(unwrap(m.obj))])
+                except StopAsyncIteration:
+                    live.remove(i)
+                except Exception as e:  # noqa: BLE001
+                    got[i] = ["err", exc_name(e)]
+                    live.remove(i)
+        turns = got
+    except Exception as e:  # noqa: BLE001
+        turns = ["err", exc_name(e)]
+    return list(gathered), turns
+
+
 def impl(case):
     text = render(case)
     doc = deep(case["doc"])
@@ -146,6 +182,16 @@ def impl(case):
     out["values"] = attempt(lambda: [SX.canon(v) for v in c.findall(doc, filter_context=ctx)])
     adoc = wrap(doc) if case["custom"] else doc
     out.update(asyncio.run(_run_async(c, adoc, ctx, case["gather"])))
+    if "other" in case:
+        docs = [case["doc"], case["other"], case["doc"]]
+        ctx2 = dict(deep(case["ctx"]), k=2, s="zz", names=["c"]) if case["ctx"] else {}
+        ctxs = [case["ctx"], case["ctx"], ctx2]
+        want_v = [attempt(lambda d=d, cx=cx: [SX.canon(v) for v in c.findall(deep(d), filter_context=deep(cx))]) for d, cx in zip(docs, ctxs)]
+        want_m = [attempt(lambda d=d, cx=cx: show_matches(list(c.finditer(deep(d), filter_context=deep(cx))))) for d, cx in zip(docs, ctxs)]
+        gathered, turns = asyncio.run(_run_concurrent(c, docs, ctxs))
+        out["concurrent_ok"] = gathered == want_v and turns == want_m
+        if not out["concurrent_ok"]:
+            out["concurrent_counterexample"] = {"gathered": gathered, "want_values": want_v, "in_turns": turns, "want_matches": want_m}
     out["pkg_async_values"] = attempt(lambda: [SX.canon(v) for v in asyncio.run(jsonpath.findall_async(text, deep(case["doc"]), filter_context=ctx))])
     return out
 
@@ -165,11 +211,15 @@ def decode(sx, case):
         model["gathered_all_equal"] = True
         model["gathered_first"] = model["async_values"]
     model["pkg_async_values"] = model["async_values"]
+    if "other" in case:
+        model["concurrent_ok"] = True
     # the property is an equivalence: the specification of the async results is the sync result
     spec_ = {"async_values": sync_v, "async_matches": sync_m, "pkg_async_values": sync_v}
     if case["gather"]:
         spec_["gathered_all_equal"] = True
         spec_["gathered_first"] = sync_v
+    if "other" in case:
+        spec_["concurrent_ok"] = True
     return {"model": model, "spec": spec_, "in_domain": wf[1] == "true"}
 
 
@@ -182,6 +232,8 @@ def project(case, res, dec=None):
     if case["gather"]:
         out["gathered_all_equal"] = res.get("gathered_all_equal")
         out["gathered_first"] = res.get("gathered_first")
+    if "other" in case:
+        out["concurrent_ok"] = res.get("concurrent_ok")
     if res.get("async_values") != res.get("values") or res.get("async_matches") != res.get("matches"):
         out["sync_async_differ_in_impl"] = {"values": res.get("values"), "matches": res.get("matches")}
     return out
